@@ -355,7 +355,12 @@ def check_public_api(case):
             exec(compile(src, '<api>', 'exec'), ns)  # noqa: S102
             p = ns['GenParser']()
     except BaseException as e:  # noqa: BLE001
-        res['fails'].append((f'source-api/{what_of(case)}/reload-raises-{type(e).__name__}', f'{type(e).__name__}: {str(e)[:200]}', w))
+        slug = f'source-api/{what_of(case)}/reload-raises-{type(e).__name__}'
+        if isinstance(e, AssertionError) and len(m.rules) == 1:
+            slug = 'source/one-element-tuple-printed-without-comma'
+        elif isinstance(e, SyntaxError) and any(r.decorators for r in m.rules):
+            slug = 'source/decorator-list-printed-without-brackets'
+        res['fails'].append((slug, f'{type(e).__name__}: {str(e)[:200]}', w))
         res['status'] = 'fail'
         return res
     inputs = atom_inputs(case['s']) if case['group'] == 'atoms' else base_battery()[:40]
@@ -365,7 +370,12 @@ def check_public_api(case):
         if o1 != o2:
             w2 = dict(w)
             w2['input'] = t
-            res['fails'].append((f'source-api/{what_of(case)}/parse', f'input {t!r}: tatsu.compile(text).parse {show(o1)} / generated {show(o2)}', w2))
+            slug = f'source-api/{what_of(case)}/parse'
+            if len(m.keywords or ()) == 1:
+                slug = 'source/one-element-tuple-printed-without-comma'
+            elif any(v not in (None, False, '') for k, v in (m.directives or {}).items() if k != 'grammar'):
+                slug = 'source/generated-parser-class-drops-directive-settings'
+            res['fails'].append((slug, f'input {t!r}: tatsu.compile(text).parse {show(o1)} / generated {show(o2)}', w2))
             res['status'] = 'fail'
             break
     return res
